@@ -134,7 +134,13 @@ def take_invariants(text):
     return text, invs
 
 
+USED_GATES = []
+
+
 def expand_gates_macro(text):
+    used = [i for name, i in gates_mod.INDEX.items() if re.search(r"\$GATE_" + name + r"\b", text)]
+    if used:
+        USED_GATES[:] = sorted(used)
     for name, i in gates_mod.INDEX.items():
         text = re.sub(r"\$GATE_" + name + r"\b", f"{i} /*{name}*/", text)
     if "$GATE_" in text:
@@ -145,10 +151,81 @@ def expand_gates_macro(text):
         if m:
             ind, args = m.groups()
             recv, rest = args.split(",", 1)
-            for k in range(gates_mod.N):
+            for k in USED_GATES:
                 out.append(f"{ind}{recv.strip()}.gate({k},{rest}), /* @dup gate {gates_mod.GATES[k][0]} */")
         else:
             out.append(line)
+    return "\n".join(out)
+
+
+def split_by_message(text):
+    """`//@split K1 K2 ..` in front of a handler: verify the same extracted body once per message kind
+    (a plain case split: copies `<fn>__<K>` assume `message is K`; the handler itself becomes an
+    exhaustive dispatcher with the original contract).  Keeps each SMT query small."""
+    lines = text.split("\n")
+    out, i = [], 0
+    while i < len(lines):
+        m = re.match(r"^//@split\s+(.+)$", lines[i])
+        if not m:
+            out.append(lines[i]); i += 1
+            continue
+        kinds = m.group(1).split()
+        j = i + 1
+        attrs = []
+        while lines[j].lstrip().startswith("#["):
+            attrs.append(lines[j]); j += 1
+        hm = re.match(r"^pub fn (\w+)(<[^>]*>)?\((.*)\)\s*$", lines[j])
+        if not hm:
+            raise WeaveError("//@split must be followed by attributes and a one-line `pub fn` header")
+        name, gen, params = hm.group(1), hm.group(2) or "", hm.group(3)
+        k = j + 1
+        while lines[k].strip() != "{":
+            k += 1
+        spec = lines[j + 1:k]
+        depth, e = 0, k
+        while True:
+            depth += lines[e].count("{") - lines[e].count("}")
+            if depth == 0:
+                break
+            e += 1
+        body = lines[k:e + 1]
+        # parameter names
+        names, depth_a, cur = [], 0, ""
+        for ch in params + ",":
+            if ch in "<([":
+                depth_a += 1
+            if ch in ">)]":
+                depth_a -= 1
+            if ch == "," and depth_a == 0:
+                if cur.strip():
+                    names.append(cur.split(":")[0].strip())
+                cur = ""
+            else:
+                cur += ch
+        ridx = next(x for x, l in enumerate(spec) if l.strip() == "requires")
+        for kd in kinds:
+            out.extend(attrs)
+            out.append(f"pub fn {name}__{kd}{gen}({params})")
+            out.extend(spec[:ridx + 1])
+            out.append(f"        message is {kd},")
+            out.extend(spec[ridx + 1:])
+            out.extend(body)
+            out.append("")
+        out.extend(a for a in attrs if "rlimit" not in a and "loop_isolation" not in a)
+        out.append(f"pub fn {name}{gen}({params})")
+        out.extend(spec)
+        out.append("{")
+        pat = {"Handshake": "Message::Handshake(_)", "Data": "Message::Data(_)", "Pull": "Message::Pull", "Error": "Message::Error(_)", "Terminate": "Message::Terminate"}
+        for n_, kd in enumerate(kinds):
+            head = "if" if n_ == 0 else "} else if"
+            if n_ == len(kinds) - 1 and n_ > 0:
+                out.append("    } else {")
+            else:
+                out.append(f"    {head} matches!(message, {pat[kd]}) {{")
+            out.append(f"        {name}__{kd}({', '.join(names)})")
+        out.append("    }")
+        out.append("}")
+        i = e + 1
     return "\n".join(out)
 
 
@@ -224,14 +301,33 @@ def expand_inv_macro(text, parts):
 
 
 def fill_body(label, body, invs, tokens, nloops, parts, nogate=(), extratag='@C04 operator-specific side condition of the call'):
-    # loop invariants: `{ __inv!(k);`  ->  `invariant ... {`
-    def repl(m):
-        k = int(m.group(1))
-        inv = invs.get((label, k))
-        if inv is None:
-            raise WeaveError(f"handler {label}: loop {k} has no INVARIANT! block in the contract")
-        return "\n" + inv + "\n{"
-    body, n = re.subn(r"\{\s*__inv!\((\d+)\);", repl, body)
+    # loop invariants: `<header> {` / `__inv!(k);`  ->  `<header>` / invariant .. / `{`, and the loop's closing
+    # brace gets a `;` (Verus rejects a loop body that is directly followed by another block)
+    src, out_lines, n, close_at = body.split("\n"), [], 0, {}
+    for idx, line in enumerate(src):
+        m = re.match(r"^(\s*)__inv!\((\d+)\);\s*$", line)
+        if m:
+            k = int(m.group(2))
+            inv = invs.get((label, k))
+            if inv is None:
+                raise WeaveError(f"handler {label}: loop {k} has no INVARIANT! block in the contract")
+            hdr = out_lines.pop()
+            if not hdr.rstrip().endswith("{"):
+                raise WeaveError(f"handler {label}: loop {k}: unexpected loop header layout")
+            ind = re.match(r"^(\s*)", hdr).group(1)
+            out_lines.append(hdr.rstrip()[:-1].rstrip())
+            out_lines.extend(ind + l for l in inv.split("\n"))
+            out_lines.append(ind + "{")
+            for e in range(idx + 1, len(src)):
+                if src[e] == ind + "}":
+                    close_at[e] = ind + "};"
+                    break
+            else:
+                raise WeaveError(f"handler {label}: loop {k}: closing brace not found")
+            n += 1
+            continue
+        out_lines.append(close_at.get(idx, line))
+    body = "\n".join(out_lines)
     if n != nloops:
         raise WeaveError(f"handler {label}: {nloops} loops extracted, {n} invariant markers placed")
     for lab, expr in tokens.items():
@@ -245,10 +341,12 @@ def fill_body(label, body, invs, tokens, nloops, parts, nogate=(), extratag='@C0
             m = re.match(r"^(\s*)(\S.*?)\.call\(h, g, c, (.*)\);\s*$", line)
             if m and not m.group(2).startswith("let ") and m.group(2).strip() not in nogate:
                 ind, recv, args = m.groups()
-                lines.append(f"{ind}{{")
+                lines.append(f"{ind}; {{")
                 lines.append(f"{ind}    let __r = {recv}; let __m = {args};")
                 lines.append(f"{ind}    proof {{")
                 for gi, (gn, gp, gt) in enumerate(gates_mod.GATES):
+                    if gi not in USED_GATES:
+                        continue  # no handle of this template mentions the gate: it is `true` for all of them
                     lines.append(f"{ind}        assert(__r.gate({gi}, *h, g@, *c, __m)); /* @{gp} {gt} */ {site}")
                 lines.append(f"{ind}        assert(__r.extra(*h, g@, *c, __m)); /* {extratag} */ {site}")
                 for pi, (name, tag) in enumerate(parts):
@@ -282,6 +380,7 @@ def weave(op_file, cfg):
     nogate = set(sum((x.split() for x in re.findall(r"^//@nogate[ \t]+(.+)$", text, re.M)), []))
     et = re.search(r"^//@extratag[ \t]+(@C\d+.*)$", text, re.M)
     extratag = et.group(1).strip() if et else "@C04 operator-specific side condition of the call"
+    text = split_by_message(text)
     text, invs = take_invariants(text)
     for pi, (name, _) in enumerate(parts):
         text = re.sub(r"\$PART_" + name + r"\b", f"{pi} /*{name}*/", text)
